@@ -159,6 +159,7 @@ func runCases(c Component, cases [][]string, seed uint64, tier, dir string) erro
 	for ci, ops := range cases {
 		hdr := fmt.Sprintf("# case %d", ci)
 		fmt.Fprintln(ow, hdr)
+		ow.Flush()
 		fmt.Fprintln(iw, hdr)
 		ex := c.NewExec()
 		for _, line := range ops {
@@ -170,8 +171,11 @@ func runCases(c Component, cases [][]string, seed uint64, tier, dir string) erro
 				op = rw.Rewrite(op)
 				line = strings.Join(op, " ")
 			}
-			ans := safeDo(ex, op)
+			// the op is on disk before it runs: if the real code kills the process (a panic in one of its own
+			// goroutines, a fatal runtime error) the check finds the input that did it at the end of ops.txt
 			fmt.Fprintln(ow, line)
+			ow.Flush()
+			ans := safeDo(ex, op)
 			fmt.Fprintln(iw, ans)
 			st.Ops++
 			st.OpMix[op[0]]++
